@@ -215,6 +215,17 @@ func (d *Dialer) dial() (*DialContext, error) {
 	if d.mode == Advertise {
 		restore, err = d.setAutoconf()
 		if err != nil {
+			// The connection is already open and has joined the all routers
+			// multicast group: undo both so the socket is not leaked when the
+			// caller retries or gives up.
+			if lerr := conn.LeaveGroup(netip.IPv6LinkLocalAllRouters()); lerr != nil {
+				d.logf("failed to leave IPv6 link-local all routers multicast group: %v", lerr)
+			}
+
+			if cerr := conn.Close(); cerr != nil {
+				d.logf("failed to stop NDP listener: %v", cerr)
+			}
+
 			return nil, err
 		}
 	}
